@@ -261,7 +261,17 @@ impl DbPool {
                 .await
                 .backup(current_path.to_string_lossy().as_ref())?;
         }
-        *user_db = UserDb::new(current_path.to_string_lossy().as_ref(), target_type)?;
+        // Close the current instance before the same files are opened again: dropping it
+        // applies and clears its write-ahead log and flushes the storage, which must not
+        // happen underneath the new instance.
+        *user_db = UserDb::new("", DbKind::Memory)?;
+        match UserDb::new(current_path.to_string_lossy().as_ref(), target_type) {
+            Ok(converted) => *user_db = converted,
+            Err(e) => {
+                *user_db = UserDb::new(current_path.to_string_lossy().as_ref(), db_type)?;
+                return Err(e);
+            }
+        }
 
         if db_type != DbKind::Memory && target_type == DbKind::Memory {
             if backup_exists {
